@@ -189,7 +189,8 @@ deriving Repr, DecidableEq
 inductive FetchOut where
   /-- `err == nil` from the `tried`-th read replica -/
   | ok (size : Nat) (tried : Nat)
-  /-- every read replica failed: the LAST error -/
+  /-- no read replica served the blob: the first failure other than "not exist" if there was one,
+  else the last error -/
   | err (e : FetchErr) (tried : Nat)
   /-- no read replica at all: `(nil, 0, nil)` -/
   | nilNil
@@ -201,16 +202,35 @@ def Sub.fetch (s : Sub) (k : Bytes) : Except FetchErr Nat :=
     | some sz => .ok sz
     | none => .error .notExist
 
-/-- `for _, replica := range sto.readReplicas { …; if err == nil { return } }; return` -/
-def fetchLoop (k : Bytes) : List Sub → Option FetchErr → Nat → FetchOut
+/-- the loop of `Fetch` (replica.go:143-161, as it is after fix b37d745): state = the named result `err`
+(the last error), `failErr` (the FIRST error other than "not exist"), number of replicas tried.
+After the loop a remembered failure wins over the last error. -/
+def fetchLoop (k : Bytes) : List Sub → Option FetchErr → Option FetchErr → Nat → FetchOut
+  | [], last, failErr, tried =>
+    match failErr with
+    | some f => .err f tried
+    | none =>
+      match last with
+      | none => .nilNil
+      | some e => .err e tried
+  | s :: rest, _, failErr, tried =>
+    match s.fetch k with
+    | .ok sz => .ok sz (tried + 1)
+    | .error e =>
+      fetchLoop k rest (some e) (if failErr.isNone && e != .notExist then some e else failErr) (tried + 1)
+
+def fetch (reads : List Sub) (k : Bytes) : FetchOut := fetchLoop k reads none none 0
+
+/-- `Fetch` as it was before fix b37d745: every read replica failed ⇒ the LAST error -/
+def fetchLoopOld (k : Bytes) : List Sub → Option FetchErr → Nat → FetchOut
   | [], none, _ => .nilNil
   | [], some e, tried => .err e tried
   | s :: rest, _, tried =>
     match s.fetch k with
     | .ok sz => .ok sz (tried + 1)
-    | .error e => fetchLoop k rest (some e) (tried + 1)
+    | .error e => fetchLoopOld k rest (some e) (tried + 1)
 
-def fetch (reads : List Sub) (k : Bytes) : FetchOut := fetchLoop k reads none 0
+def fetchOld (reads : List Sub) (k : Bytes) : FetchOut := fetchLoopOld k reads none 0
 
 /-! ## StatBlobs (replica.go:149-185) -/
 
